@@ -12,7 +12,7 @@ LEAN_MODS = ["SwcVerif.Props.C14"]
 THEOREMS = [
     "C14.tree_volume_eq_sum", "C14.level1_every_tree", "C14.level2_every_tree", "C14.level3_every_tree", "C14.level5_every_tree",
     "C14.node_level1", "C14.node_level2", "C14.node_level3", "C14.node_level5",
-    "C14.chain_union", "C14.chain_hyps_of_pairwise", "C14.sum_chainRose", "C14.chain_volume_is_union", "C14.lens_inside_frustum",
+    "C14.chain_union", "C14.chain_hyps_of_pairwise", "C14.sum_chainRose", "C14.chain_volume_is_union", "C14.two_arm_volume_is_union", "C14.lens_inside_frustum",
 ]
 TRUSTED = ["translator (Gen/VolumeTerms.lean: the per-node inclusion–exclusion terms and their accuracy levels, regenerated from analysis/volume.py)",
            "disc method for the true union volume of collinear trees (profile = max of the parts' profiles)"]
